@@ -177,6 +177,8 @@ def generate(tier, seed, work, stats):
         other = list(c["callsA"][1:])
         rnd.shuffle(other)
         cases.append(dict(c, callsB=[c["callsA"][0]] + other, ypool="neg", family="random-dfa-reordered-negative-symbols"))
+    for i, c in enumerate(random_pairs(600 if tier == "quick" else 6000, seed + 10)):
+        cases.append(dict(c, ypool="mixedsym", family="random-mixed-type-symbols"))
     # step-level conformance of the Hopcroft refinement (TraceHopcroft): spec-generated DFAs and dense random ones
     states = core.tlc_dump("FAGen", c01.gen_cfg("dfa", 3, 4, 0, invariants=False, maxs=1, maxf=2), work, stats=stats, name="FAGen-dfa-q3-t4-steps")
     for i, st in enumerate(c01.sample(states, 8 if tier == "quick" else 1, seed)):
